@@ -57,7 +57,7 @@ class C07(CleanBase):
         obs = [r for r in results if r[0] == "obs"]
         opl = [o for o in ops if o[0] not in ("init", "dumpfs", "counters", "clean")]
         if len(fss) < 2 or not cl or len(opl) != len(obs):
-            return []
+            return self.skip("guard")
         before, after = fss[-2][2], fss[-1][2]
         c = cl[0][2]
         if case["meta"].get("oracle_only"):
@@ -93,13 +93,13 @@ class C07(CleanBase):
                 k_of[key] = k_of.get(key, 0) + 1
                 addressed.setdefault((kv["test"], kv["h"], kv["api"]), set()).add(k_of[key])
         if any(e != cnt for e in execs.values()):
-            return []
+            return self.skip("guard")
         tot = {}
         for (name, kv), (_, idx, o) in zip(opl, obs):
             if name == "match":
                 tot[(kv["test"], kv["h"], kv["api"])] = tot.get((kv["test"], kv["h"], kv["api"]), 0) + 1
         if any(n_ % cnt for n_ in tot.values()) or any(execs.get(t, 0) != cnt for (t, _, _) in tot):
-            return []      # not `count` uniform executions (e.g. a shrunk case): outside the quantifier
+            return self.skip("not `count` uniform executions (e.g. a shrunk case): outside the quant")
         for (test, h, api), ks in addressed.items():
             t = unhx(test)
             cfg = cfgs[int(h) - 1] if int(h) > 0 and int(h) <= len(cfgs) else {"fn": "~", "dir": "~", "ext": "~"}
